@@ -25,7 +25,16 @@ import (
 	"time"
 )
 
-const verifDir = "/verif"
+// verifDir is the root of the verification tree: the directory ./check lives in
+// (the check script changes into it before starting the supervisor).
+var verifDir = func() string {
+	if d, err := os.Getwd(); err == nil {
+		if _, e := os.Stat(filepath.Join(d, "harness", "go.mod")); e == nil {
+			return d
+		}
+	}
+	return "/verif"
+}()
 
 type modeCfg struct {
 	Name   string
